@@ -40,6 +40,7 @@ def run(tier: str) -> int:
     structural(chk)
     tmo = 400 if tier == "quick" else 1200
     conds = [core.Cond("default mapping", HARNESS, "check", {"default": 1}, tmo),
+             core.Cond("default mapping, 14 traces in one workflow", HARNESS, "check", {"default": 1, "many": 12}, tmo),
              *[core.Cond(f"custom mapping of three fields (jobId -> {n}), others default", HARNESS, "check", {"rest_fresh": 0, "m0": i}, tmo)
                for i, n in enumerate(["jobId", "eventType", "jobName", "fresh1"])],
              *[core.Cond(f"custom mapping of all fields (jobId -> {n})", HARNESS, "check", {"rest_fresh": 1, "m0": i}, tmo)
